@@ -19,10 +19,10 @@ Batch == JsonDeserialize(IOEnv.TRACE_FILE)
 Traces == Batch.traces
 
 \* ---- JSON -> specification values ----
-PosOf(I, m) == LET nl == Len(I.leads)  ns == Len(I.locs)
-               IN  <<((m - 1) \div (ns * nl)) + 1, (((m - 1) \div ns) % nl) + 1, ((m - 1) % ns) + 1>>
-Unflat(I, flat) == [p \in {PosOf(I, m) : m \in 1..(Len(I.times) * Len(I.leads) * Len(I.locs))} |->
-                      LET m == CHOOSE q \in 1..Len(flat) : PosOf(I, q) = p IN <<flat[m][1], flat[m][2]>>]
+\* flat arrays are row-major over the file's own (time, lead time, location) positions
+Unflat(I, flat) == LET nl == Len(I.leads)  ns == Len(I.locs)
+                   IN  [p \in (1..Len(I.times)) \X (1..nl) \X (1..ns) |->
+                          LET m == ((p[1] - 1) * nl + (p[2] - 1)) * ns + p[3] IN <<flat[m][1], flat[m][2]>>]
 InputOf(j) == [times |-> j.times, leads |-> j.leads, locs |-> j.locs, lat |-> j.lat, lon |-> j.lon, elev |-> j.elev,
                hasObs |-> j.hasObs, obs |-> Unflat(j, j.obs), fcst |-> Unflat(j, j.fcst)]
 DsOfJson(t) == [inputs |-> [k \in DOMAIN t.inputs |-> InputOf(t.inputs[k])], hasClim |-> t.hasClim,
@@ -53,8 +53,22 @@ StepsMatch(e) == /\ Len(e.steps) = Len(last'.steps)
                       /\ (a.ev = "ObsRange" => a.input = b.input /\ a.masked = b.masked)
 InternalMatch(e) == e.hit = last'.hit /\ e.ids = last'.ids /\ StepsMatch(e)
 
+\* the verified dimensions a successfully built object reports (observable, C03)
+TraceDims ==
+  /\ l <= Len(Events) /\ Events[l].ev = "Dims"
+  /\ LET e == Events[l] IN e.times = X.T /\ e.leads = X.L /\ e.locs = X.S
+  /\ l' = l + 1 /\ tid' = tid
+  /\ UNCHANGED ivars
+
+\* building the object ended in an error exit: allowed only when the selection leaves nothing (C03)
+TraceInitError ==
+  /\ l <= Len(Events) /\ Events[l].ev = "InitError"
+  /\ EmptySelection(ds, opt)
+  /\ l' = l + 1 /\ tid' = tid
+  /\ UNCHANGED ivars
+
 TraceGetScores ==
-  /\ l <= Len(Events)
+  /\ l <= Len(Events) /\ Events[l].ev = "GetScores"
   /\ LET e == Events[l] IN
        /\ Request(ReqOfJson(e))
        /\ ValuesMatch(e)
@@ -66,6 +80,6 @@ TraceDone == /\ l = Len(Events) + 1
              /\ UNCHANGED ivars
              /\ PrintT(ToJson([accept |-> Traces[tid].id]))
 
-TraceNext == TraceGetScores \/ TraceDone
+TraceNext == TraceGetScores \/ TraceDims \/ TraceInitError \/ TraceDone
 TraceSpec == TraceInit /\ [][TraceNext]_tvars
 =============================================================================
